@@ -33,14 +33,14 @@ def mul_route(route, p, q):
         # an integer-valued left operand is handed over as an integer array (the free function does not normalise)
         a = np.abs(p[np.abs(p) > 1e-9])
         k = p / np.min(a)
-        if np.max(np.abs(k - np.rint(k))) < 1e-12 and np.max(np.abs(k)) <= 64:
+        if np.array_equal(k, np.rint(k)) and np.array_equal(k * np.min(a), p) and np.max(np.abs(k)) <= 64:
             pi = np.rint(k).astype(np.int64)
             return np.asarray(ori.q_prod(pi, q.copy()), dtype=float) / np.linalg.norm(pi)
         return np.asarray(ori.q_prod(p.copy(), q.copy()), dtype=float)
     if route == "rotate_by[int-list]":
         a = np.abs(p[np.abs(p) > 1e-9])
         k = p / np.min(a)
-        if np.max(np.abs(k - np.rint(k))) < 1e-12 and np.max(np.abs(k)) <= 64:
+        if np.array_equal(k, np.rint(k)) and np.array_equal(k * np.min(a), p) and np.max(np.abs(k)) <= 64:
             return np.asarray(QuaternionArray(np.array([q, q])).rotate_by([int(c) for c in np.rint(k)]), dtype=float)[0]
         return np.asarray(QuaternionArray(np.array([q, q])).rotate_by(list(p)), dtype=float)[0]
     if route == "rotate_by":
@@ -125,7 +125,7 @@ def dcm_route(route, q):
     if route == "DCM(q=)[int-list]":
         # integer-valued (non-normalised) quaternions are handed over as integers; others as they are
         k = np.array(q, dtype=float) / np.min(np.abs(np.array(q, dtype=float))[np.abs(np.array(q, dtype=float)) > 1e-9])
-        if np.max(np.abs(k - np.rint(k))) < 1e-12 and np.max(np.abs(k)) <= 64:
+        if np.array_equal(k, np.rint(k)) and np.array_equal(k * np.min(a), p) and np.max(np.abs(k)) <= 64:
             return np.asarray(DCM(q=[int(c) for c in np.rint(k)]), dtype=float)
         return np.asarray(DCM(q=list(q)), dtype=float)
     raise KeyError(route)
